@@ -600,6 +600,31 @@ pub fn c08_scenarios(ns: &[u64], waits: &[WaitK]) -> Vec<Scn> {
                     vec![op(Recv, R0), op(Recv, R0)],
                 ];
                 out.push(s);
+                if fl == Flavour::B && n == 1 {
+                    // the consumer blocks while a reclamation cycle is pending
+                    // (24 retirements, threshold 20): the send that wakes it is
+                    // also the one that has to acknowledge the epoch
+                    let mut s = Scn::new("c08-recv-vs-send-epoch-pending", cfg);
+                    for _ in 0..6 {
+                        s.prefix.push(opd(AddStream, R0, R4));
+                        s.prefix.push(op(DropH, R4));
+                    }
+                    s.threads = vec![vec![opv(TrySend, S0, 1)], vec![op(Recv, R0)]];
+                    out.push(s);
+                    // the same with the cycle starting during the explored phase
+                    let mut s = Scn::new("c08-recv-vs-send-vs-churn-crossing-threshold", cfg);
+                    s.prefix = vec![opd(CloneH, R0, R1)];
+                    for _ in 0..5 {
+                        s.prefix.push(opd(AddStream, R0, R4));
+                        s.prefix.push(op(DropH, R4));
+                    }
+                    s.threads = vec![
+                        vec![opv(TrySend, S0, 1)],
+                        vec![op(Recv, R0)],
+                        vec![opd(AddStream, R1, R4), op(DropH, R4)],
+                    ];
+                    out.push(s);
+                }
                 // two consumers of one stream each take one value and leave;
                 // the producer sends exactly two and keeps its handle
                 let mut s = Scn::new("c08-two-consumers-one-each", cfg);
@@ -1584,10 +1609,38 @@ pub fn matrix_scenarios(fl: Flavour, n: u64, max_roles: usize) -> Vec<Scn> {
         if !traffic && !structural_pair {
             continue;
         }
-        for st in [St::One, St::Full] {
+        // third and fourth state, pairs only: one value queued and 24 / 20
+        // retirements behind the manager (threshold: more than 20). With 24 a
+        // reclamation cycle is pending and every operation of the two roles
+        // has to acknowledge the epoch; with 20 the roles' own first
+        // retirement opens the cycle and goes into it.
+        let states: &[(St, u8)] = if combo.len() == 2 {
+            &[(St::One, 0), (St::Full, 0), (St::One, 24), (St::One, 20)]
+        } else {
+            &[(St::One, 0), (St::Full, 0)]
+        };
+        for &(st, retired) in states {
             let cfg = q(fl, n, WaitK::Busy);
             let label: Vec<String> = combo.iter().map(|r| format!("{:?}", r)).collect();
-            let mut s = Scn::new(&format!("mx-{}[{:?}]", label.join("+"), st), cfg);
+            let stl = match retired {
+                0 => format!("{:?}", st),
+                24 => "One+epoch-pending".to_string(),
+                _ => "One+20-retired".to_string(),
+            };
+            let mut s = Scn::new(&format!("mx-{}[{}]", label.join("+"), stl), cfg);
+            if retired > 0 {
+                if fl == Flavour::B {
+                    for _ in 0..retired / 4 {
+                        s.prefix.push(opd(AddStream, 1, 22));
+                        s.prefix.push(op(DropH, 22));
+                    }
+                } else {
+                    for _ in 0..retired {
+                        s.prefix.push(opd(CloneH, 1, 22));
+                        s.prefix.push(op(DropH, 22));
+                    }
+                }
+            }
             for r in &combo {
                 for o in needs(*r) {
                     if !s.prefix.contains(&o) {
